@@ -3,6 +3,7 @@ import SimilarVerif.Lemmas.Lcs
 import SimilarVerif.Lemmas.Myers
 import SimilarVerif.Lemmas.Patience
 import SimilarVerif.Lemmas.MyersTotal
+import SimilarVerif.Lemmas.PatienceTotal
 import SimilarVerif.Lemmas.Walk
 /-!
 # C01 — every algorithm emits a sound, gap-free, index-exact edit script
@@ -19,8 +20,8 @@ Status
   the `V` arrays, the overlap test fires exactly at ⌈D/2⌉, the split point lies on an optimal path
   inside the box and is not a corner) and discharges the hypothesis `SnakeInBox` the first theorems
   below are stated relative to.
-* Patience: partial correctness without hypotheses (`patience_valid_if_returns`); totality of the
-  composite (unique, gap runs, tail run) is not yet a theorem.
+* Patience: **full** — total and valid for every clock (`patience_total_valid`, last theorem of this
+  file; Lemmas/PatienceTotal.lean on top of the hook-generic Myers totality).
 -/
 namespace SimilarVerif.C01
 open SimilarVerif Spec
@@ -124,5 +125,21 @@ theorem patience_valid_if_returns (E : Env) (os oe ns ne : Nat) (w : World) (r' 
     (ho : os ≤ oe) (hn : ns ≤ ne) (hb : InBounds E os oe ns ne)
     (h : rawTrace .patience E os oe ns ne w = .ok (r', w')) : ValidRaw E os oe ns ne r'.trace :=
   patience_partial E (MyersT.snake_in_box E) os oe ns ne (fun uo un _ _ => MyersT.snake_in_box _) w r' w' ho hn hb h
+
+end SimilarVerif.C01
+
+namespace SimilarVerif.C01
+open SimilarVerif Spec
+
+/-- **Patience, full strength**: for in-bounds ranges (cross comparisons and the same-side comparisons
+`unique` needs) and every clock the call returns — `unique`, the anchor scans, every gap run, the tail
+run and the `Replace` adapter in front of the internal hook never abort — and the stream is valid. -/
+theorem patience_total_valid (E : Env) (os oe ns ne : Nat) (w : World) (ho : os ≤ oe) (hn : ns ≤ ne)
+    (hb : InBounds E os oe ns ne)
+    (hbo : ∀ i j, os ≤ i → i < oe → os ≤ j → j < oe → (E.oo i j).isSome)
+    (hbn : ∀ i j, ns ≤ i → i < ne → ns ≤ j → j < ne → (E.nn i j).isSome) :
+    ∃ r w', rawTrace .patience E os oe ns ne w = .ok (r, w') ∧ ValidRaw E os oe ns ne r.trace := by
+  obtain ⟨r, w', h, hv⟩ := PatienceT.patience_total E os oe ns ne w ho hn hb hbo hbn
+  exact ⟨r, w', by simpa [rawTrace, diffWith] using h, hv⟩
 
 end SimilarVerif.C01
